@@ -96,6 +96,6 @@ func (c RdsGenerator) Generate(proxy *model.Proxy, w *model.WatchedResource, req
 	if !rdsNeedsPush(req, proxy) {
 		return nil, model.DefaultXdsLogDetails, nil
 	}
-	resources, logDetails := c.ConfigGenerator.BuildHTTPRoutes(proxy, req, w.ResourceNames.UnsortedList())
+	resources, logDetails := c.ConfigGenerator.BuildHTTPRoutes(proxy, req, sets.SortedList(w.ResourceNames))
 	return resources, logDetails, nil
 }
